@@ -63,11 +63,12 @@ Section Model.
                     (fun d acc => nadd O acc (nmul O (aget2 zero modes d j) (aget2 zero modes d j))) zero))
         (seq 0 (shape1 modes)).
 
-  (* np.sqrt(model.spectrum(k_norm) * np.prod(self._delta_k)); the spectrum values are an input (external:
-     the covariance model's spectral density) *)
+  (* spectrum = np.maximum(model.spectrum(k_norm), 0.0);  np.sqrt(spectrum * np.prod(self._delta_k)); the spectrum
+     values are an input (external: the covariance model's spectral density, possibly a numerical Hankel transform
+     that is slightly negative where it vanishes) *)
   Definition spectrum_factor (spec : list T) (dk : list T) : list T :=
     let vol := fold_left (nmul O) dk (n1 O) in
-    map (fun s => nsqrt O (nmul O s vol)) spec.
+    map (fun s => nsqrt O (nmul O (if nltb O s zero then zero else s) vol)) spec.
 
   (* moving every point by s along coordinate axis ax of a (dim, n) position array *)
   Definition shift_axis (pos : list (list T)) (ax : nat) (s : T) : list (list T) :=
@@ -140,15 +141,19 @@ Section Model.
         end
     end.
 
-  Definition step (st : fstate) (u : upd) : fstate * outcome :=
+  (* [same_obj] = "the passed model IS the generator's internal copy" (model is self._model: the model getter returns
+     the copy itself, so  m = gen.model; m.anis = x; gen.model = m  passes the stored object back; comparing it with
+     itself says nothing, and update treats it as changed) *)
+  Definition step_gen (same_obj : bool) (st : fstate) (u : upd) : fstate * outcome :=
     match (match u_model u with Some m => Some m | None => f_model st end) with
     | None => (st, Err)                      (* no model at all *)
     | Some tmp =>
         let dim := m_dim tmp in
-        let changed := match u_model u with
-                       | Some m => match f_model st with Some c => negb (model_close c m) | None => true end
-                       | None => false
-                       end in
+        let changed := orb same_obj
+                         match u_model u with
+                         | Some m => match f_model st with Some c => negb (model_close c m) | None => true end
+                         | None => false
+                         end in
         (* a changed model re-uses the present period *)
         let period := match u_period u with
                       | Some p => Some p
@@ -179,6 +184,12 @@ Section Model.
             end
         end
     end.
+
+  Definition step (st : fstate) (u : upd) : fstate * outcome := step_gen false st u.
+
+  (* the model GETTER returns the stored copy itself: an in-place edit through it changes only the stored model *)
+  Definition edit_model (st : fstate) (m : cmodel) : fstate :=
+    mkFS (Some m) (f_period st) (f_mode_no st) (f_dk st) (f_modes st).
 
   (* the period / mode_no GETTERS return the stored array / list itself, so a caller can edit it in place before
      assigning it back (gen.period *= c;  m = gen.mode_no; m[0] = 8; gen.mode_no = m): such an edit changes the
